@@ -79,12 +79,12 @@ func (o Option) IsEmpty() bool {
 // 可选参数 map
 type Options map[Tag]Option
 
-func (o Options) Add(opt Option) {
-	if o == nil {
-		o = make(Options)
+func (o *Options) Add(opt Option) {
+	if *o == nil {
+		*o = make(Options)
 	}
 
-	o[Tag(opt.tag)] = opt
+	(*o)[Tag(opt.tag)] = opt
 }
 
 func (o Options) String() string {
